@@ -44,7 +44,7 @@ func (s Spec) name() string {
 
 func (s Spec) bodyFails() bool {
 	switch s.Body {
-	case "fail1", "fail2", "append", "nest-fail":
+	case "fail1", "fail2", "append", "nest-fail", "nest-retfail":
 		return true
 	}
 	return false
@@ -63,6 +63,11 @@ func script(s Spec) string {
 		body = []string{"probe --id=body.c1 --fail=append"}
 	case "nest-ok":
 		body = []string{"probe --id=body.c1", `pip:run --name=inner --body=\"probe --id=nested.c1 --yield=1\"`, "probe --id=body.c2"}
+	case "nest-retfail":
+		// the nested task runs in a sandbox that reports its failure only through Run's return value
+		body = []string{"probe --id=body.c1", `pip:run --name=inner --sandbox=retfail:nested.sb --body=\"probe --id=never.c1\"`, "probe --id=body.c2"}
+	case "nest-retok":
+		body = []string{"probe --id=body.c1", `pip:run --name=inner --sandbox=retok:nested.sb --body=\"probe --id=never.c1\"`, "probe --id=body.c2"}
 	case "nest-fail":
 		body = []string{"probe --id=body.c1", `pip:run --name=inner --body=\"probe --id=nested.c1 --fail=return\"`, "probe --id=body.c2"}
 	}
@@ -167,7 +172,7 @@ func judge(sp Spec, o *obs) func(x *explore.Exec) *explore.Verdict {
 				}
 			}
 		}
-		if sp.Body == "nest-ok" && len(w.EventsOf("nested.")) != 2 {
+		if (sp.Body == "nest-ok" || sp.Body == "nest-retok") && len(w.EventsOf("nested.")) != 2 {
 			return v("nested-task-incomplete", "tasks spawned by the body finish", "nested task events: %d", len(w.EventsOf("nested.")))
 		}
 		// containment
@@ -192,7 +197,7 @@ func programs(thorough bool) []Spec {
 		b = 1
 	}
 	var ps []Spec
-	for _, body := range []string{"ok", "fail1", "fail2", "append", "nest-ok", "nest-fail"} {
+	for _, body := range []string{"ok", "fail1", "fail2", "append", "nest-ok", "nest-fail", "nest-retfail", "nest-retok"} {
 		for mask := 0; mask < 8; mask++ {
 			s := Spec{Body: body, Success: mask&1 != 0, Fail: mask&2 != 0, Finally: mask&4 != 0, Bound: b}
 			if strings.HasPrefix(body, "nest") {
@@ -284,7 +289,7 @@ func replay(wj json.RawMessage) (*fw.Violation, error) {
 
 func init() {
 	fw.Register(&fw.Check{ID: "C16", Level: "model_checking",
-		Rule: "programs = body {succeeds, fails at command 1 / 2, appends an error, spawns a nested task that succeeds / fails} x every subset of {success, fail, finally} handlers x one failing handler; the script `pip:try ...` followed by another command is fed to the real terminal loop of a mock application bootstrapped per execution, probe commands log begin/end; every schedule within the bound (quick: free context switches at blocking points; thorough: 1 preemption, nested bodies free switches only) with a happens-before state cache; oracle: which handlers ran, handler begin after the end of the body and of every task it spawned, error state of the surrounding scope, the script continuing after the block, no panic, no deadlock; for programs with a failing handler additionally reachability over the explored schedule set: some schedule runs the finally handler (resp. the matching handler when finally is the failing one). states = distinct schedule traces",
+		Rule: "programs = body {succeeds, fails at command 1 / 2, appends an error, spawns a nested task that succeeds / fails, in the self sandbox or in a sandbox that reports failure only through its return value} x every subset of {success, fail, finally} handlers x one failing handler; the script `pip:try ...` followed by another command is fed to the real terminal loop of a mock application bootstrapped per execution, probe commands log begin/end; every schedule within the bound (quick: free context switches at blocking points; thorough: 1 preemption, nested bodies free switches only) with a happens-before state cache; oracle: which handlers ran, handler begin after the end of the body and of every task it spawned, error state of the surrounding scope, the script continuing after the block, no panic, no deadlock; for programs with a failing handler additionally reachability over the explored schedule set: some schedule runs the finally handler (resp. the matching handler when finally is the failing one). states = distinct schedule traces",
 		Run: run, Replay: replay,
 		Assumptions: []string{"the finally handler is submitted first; when it fails the remaining handlers are not started (the handler failure is what is reported)", "accesses to objects outside the focus packages do not order executions in the happens-before cache (declared reduction)"}})
 }
